@@ -9,6 +9,8 @@ import (
 	"go/types"
 	"math/big"
 	"os"
+	"runtime"
+	"runtime/debug"
 	"sort"
 	"strings"
 
@@ -84,6 +86,7 @@ type Engine struct {
 	discSorts  map[string]*Sort
 	discExtra  map[string]bool
 	pureCache  map[string]Val
+	discRefs   map[string]map[*Term]bool
 }
 
 type pathEnd struct{ reason string }
@@ -559,7 +562,23 @@ func (e *Engine) atLoopHeader(st *State, fr *Frame, li *loopInfo, from *ssa.Basi
 				}
 				continue
 			}
-			st.mem[k] = FreshVar("Hl|"+k, old.S)
+			nw := FreshVar("Hl|"+k, old.S)
+			if strings.HasPrefix(k, "arr<") && old.S.Idx.W >= 128 {
+				// slice backing arrays: objects that existed before the loop and are not written by the body keep
+				// their contents (the body writes only the discovered objects and objects it allocates itself)
+				j := Bound("j", old.S.Idx)
+				lead := Extract(old.S.Idx.W-1, old.S.Idx.W-64, j)
+				pre := Ule(lead, BVConst(st.nextRef, 64))
+				var notW []*Term
+				for r := range e.discRefs[k] {
+					if isFreshRef(r) && r.Val > st.nextRef {
+						continue // allocated inside the loop body
+					}
+					notW = append(notW, Not(Eq(lead, r)))
+				}
+				st.assume(Forall([]*Term{j}, Implies(And(append([]*Term{pre}, notW...)...), Eq(Select(nw, j), Select(old, j)))))
+			}
+			st.mem[k] = nw
 		}
 	}
 	for gk := range st.ghost {
@@ -584,6 +603,8 @@ func (e *Engine) discoverLoopWrites(st *State, li *loopInfo, key string) []strin
 	e.cur.discover = true
 	probe := st.clone()
 	probe.written = map[string]bool{}
+	probe.wrefs = map[string]map[*Term]bool{}
+	e.discRefs = map[string]map[*Term]bool{}
 	probe.ghost["$discover/"+key] = boolVal(True)
 	union := map[string]bool{}
 	e.work = []*State{probe}
@@ -597,6 +618,14 @@ func (e *Engine) discoverLoopWrites(st *State, li *loopInfo, key string) []strin
 			break
 		}
 		e.runDiscover(s, li, key)
+		for k, m := range s.wrefs {
+			if e.discRefs[k] == nil {
+				e.discRefs[k] = map[*Term]bool{}
+			}
+			for t := range m {
+				e.discRefs[k][t] = true
+			}
+		}
 		for k := range s.written {
 			union[k] = true
 			if a, ok := s.mem[k]; ok {
@@ -625,6 +654,17 @@ func (e *Engine) discUnion(st *State) {
 	if e.discExtra == nil {
 		e.discExtra = map[string]bool{}
 	}
+	for k, m := range st.wrefs {
+		if e.discRefs == nil {
+			e.discRefs = map[string]map[*Term]bool{}
+		}
+		if e.discRefs[k] == nil {
+			e.discRefs[k] = map[*Term]bool{}
+		}
+		for t := range m {
+			e.discRefs[k][t] = true
+		}
+	}
 	for k := range st.written {
 		e.discExtra[k] = true
 		if a, ok := st.mem[k]; ok {
@@ -639,6 +679,10 @@ func (e *Engine) discUnion(st *State) {
 func (e *Engine) runDiscover(st *State, li *loopInfo, key string) {
 	defer func() {
 		if r := recover(); r != nil {
+			if _, isRT := r.(runtime.Error); isRT && os.Getenv("GOVC_DEBUG") != "" {
+				fmt.Println("runtime error in discovery:", r)
+				debug.PrintStack()
+			}
 			switch x := r.(type) {
 			case pathEnd:
 				return
@@ -1679,8 +1723,20 @@ func (e *Engine) mapLoad(st *State, m Val, k Val) (Val, *Term) {
 	ss := leafSorts(mt.Elem())
 	L := make([]*Term, len(ss))
 	z := zeroVal(mt.Elem())
+	raw := make([]*Term, len(ss))
 	for j, s := range ss {
-		L[j] = Ite(has, st.loadLeaf(fmt.Sprintf("%s|val#%d", root, j), idx, s), z.L[j])
+		raw[j] = st.loadLeaf(fmt.Sprintf("%s|val#%d", root, j), idx, s)
+		L[j] = Ite(has, raw[j], z.L[j])
+	}
+	// stored values are well-formed Go values
+	open := false
+	for _, t := range raw {
+		if t.hasBound {
+			open = true
+		}
+	}
+	if !open && !has.hasBound {
+		st.assumeSliceWF(Val{mt.Elem(), raw})
 	}
 	return Val{mt.Elem(), L}, has
 }
